@@ -369,7 +369,8 @@ def machine_factory(ctx):
                 self.world.check()
             except Violation as v:
                 v.case = {'ops': list(self.ops)}
-                raise
+                if ctx.should_raise(v, v.case):
+                    raise
 
         @rule(t=idx, f=st.sampled_from(['version', 'locktime']), v=gen.u32)
         def set_field(self, t, f, v):
